@@ -155,7 +155,16 @@ class Built:
         factory = dataset.nocache if d.get("nocache") else dataset
         form = d.get("form", "decorator")
         pnames = [f"p{i}" for i in range(len(nodes))]
-        if form == "decorator" or d.get("abstract"):
+        if d.get("shared_factory") and not kw:
+            if getattr(self, "_memo_factory", None) is None:
+                from labrea.cache import MemoryCache
+                self._memo_factory = dataset(cache=MemoryCache)
+            if form == "decorator":
+                f.__defaults__ = tuple(nodes)
+                ds = self._memo_factory(f)
+            else:
+                ds = self._memo_factory.where(**dict(zip(pnames, nodes)))(f)
+        elif form == "decorator" or d.get("abstract"):
             f.__defaults__ = tuple(nodes)
             ds = factory(**kw)(f) if kw else factory(f)
         elif form == "explicit":
